@@ -24,6 +24,16 @@ CEXDIR = os.environ.get("VF_CEXDIR")
 KNOWN = known.load()
 
 
+def _reproduces_in_fresh_process(path):
+    import subprocess
+    try:
+        p = subprocess.run(["/venv/bin/python", "-m", "vflib.replay", path], capture_output=True, text=True, timeout=300,
+                           env=dict(os.environ), cwd=os.path.dirname(os.path.dirname(os.path.abspath(__file__))))
+        return p.returncode == 1
+    except Exception:
+        return True     # cannot tell: keep it as a candidate, the runner replays it again
+
+
 def _run(twin: bool) -> bool:
     ch = make_chooser()
     with NoTracing():
@@ -40,9 +50,18 @@ def _run(twin: bool) -> bool:
             trace = ch.finalize()
             rec["trace"] = trace
             if CEXDIR:
-                with open(os.path.join(CEXDIR, uuid.uuid4().hex + ".json"), "w") as f:
+                path = os.path.join(CEXDIR, uuid.uuid4().hex + ".json")
+                with open(path, "w") as f:
                     json.dump({"property": PROP, "scenario": os.environ["VF_SCENARIO"], "params": PARAMS,
                                "trace": trace, "failures": unknown_fail, "harness_exception": err}, f, default=str)
+                if unknown_fail and not err and not _reproduces_in_fresh_process(path):
+                    # the failure needs state that an EARLIER path left behind in this worker process; its own trace does not
+                    # contain the cause, so it is not a counterexample.  Keep exploring: a path whose own history contains the
+                    # cause will reproduce.  (Counted and reported as inconclusive if no such path turns up.)
+                    os.rename(path, path + ".polluted")
+                    rec["polluted"] = True
+                    rec["fail"] = False
+                    unknown_fail = []
         else:
             rec["trace"] = [t for t in ch.trace]
         if LOG and not twin:
